@@ -106,3 +106,16 @@ package mainmw
 //@             fctx.filteredResponse != nil && fresh(fctx.filteredResponse) && blockedBy[fctx.filteredResponse] == ri.Messages
 //@   ensures nothing-filtered-nothing-changed: fctx.requestResult == nil && (fctx.responseResult == nil || isptr(fctx.responseResult, filter.ResultAllowed)) ==>
 //@             fctx.filteredResponse == fctx.originalResponse
+
+// ---------------------------------------------------------------------------
+// C02 / C07: the filtering context is a pooled object; it starts with nothing
+// of the request it served before - in particular no rewritten request and no
+// verdicts, which would make the middleware resolve the earlier query's
+// rewrite target and skip response filtering.
+//@ func (*Middleware).newFilteringContext
+//@   property C02 C07
+//@   requires mw != nil && mw.fltCtxPool != nil && req != nil && len(req.Question) >= 1
+//@   modifies filteringContext.*, elems(req.Question)
+//@   ensures starts-with-this-request-only: fctx != nil && fctx.originalRequest == req && fctx.modifiedRequest == nil &&
+//@           fctx.originalResponse == nil && fctx.filteredResponse == nil && fctx.requestResult == nil && fctx.responseResult == nil && fctx.elapsed == 0
+//@   ensures fctx.isDebug == (old(req.Question[0].Qclass) == 3)
